@@ -133,7 +133,7 @@ class Repo(object):
         return {m.name: m.sha for m in self._mods.values()}
 
 
-def loop_shape(fn_node):
+def loop_shape(fn_node, lenient=()):
     """Loop skeleton of a function, the thing loop contracts are keyed on (by ordinal): for every loop in source order
     its kind, whether a ``while`` test is the constant True, whether it has an ``else``, and how many ``break`` /
     ``continue`` / ``return`` / ``yield`` statements belong to it directly (not to a nested loop or function).
@@ -168,9 +168,28 @@ def loop_shape(fn_node):
         walk(loop, True)
         return cnt
 
+    loops_in_order = []
+
+    def collect(n):
+        for ch in _ast.iter_child_nodes(n):
+            if isinstance(ch, (_ast.FunctionDef, _ast.AsyncFunctionDef, _ast.Lambda, _ast.ClassDef)) and ch is not fn_node:
+                continue
+            if isinstance(ch, (_ast.For, _ast.While)):
+                loops_in_order.append(ch)
+            collect(ch)
+    collect(fn_node)
+    loops_in_order.sort(key=lambda n: (n.lineno, n.col_offset))
+    ordinal = {id(n): k for k, n in enumerate(loops_in_order)}
+
     def visit(n):
         for ch in _ast.iter_child_nodes(n):
             if isinstance(ch, (_ast.FunctionDef, _ast.AsyncFunctionDef, _ast.Lambda, _ast.ClassDef)) and ch is not fn_node:
+                continue
+            if isinstance(ch, (_ast.For, _ast.While)) and ordinal.get(id(ch)) in lenient:
+                # a loop summarised per arbitrary element (no inductive invariant): its contract does not depend on
+                # where the body continues, only on the loop being there
+                out.append("for(any-element)" if isinstance(ch, _ast.For) else "while(any-element)")
+                visit(ch)
                 continue
             if isinstance(ch, _ast.While):
                 c = own_counts(ch)
